@@ -24,7 +24,7 @@ from fractions import Fraction
 
 import numpy as realnp
 
-from .common import *  # noqa
+from .cplkit import *  # noqa
 from symx.solver import explore, prove_zero
 from symx import harness as H
 
@@ -40,8 +40,7 @@ def _sym_matrices(order, n):
     return A
 
 
-def _as_jet(x):
-    return x if isinstance(x, Jet) else Jet.lift(x)
+_as_jet = as_jet
 
 
 # ---------------------------------------------------------------------------
@@ -55,6 +54,7 @@ def _ome_expanded(log, n, m):
     log.encode(qk.build_ome)
     jetmod.set_cap(m + 2)
     rp = (MOD, "replay_ome", {"n": n, "m": m, "exact": False})
+    D = Decider(log)
 
     def run():
         A = _sym_matrices(m, n)
@@ -71,7 +71,7 @@ def _ome_expanded(log, n, m):
                         raise EngineError("product known only to O(lam^%d)" % d.prec)
                     for k in range(0, m + 1):
                         v = prove_zero(d._known(k), "%s [%d,%d]: a_s^%d coefficient of (product - 1) == 0 (order %d, %dx%d)" % (tag, i, j, k, m, n, n))
-                        log.decide(v, key="build_ome:expanded", replay=rp, sampler=_sampler)
+                        D(v, key="build_ome:expanded", replay=rp, sampler=_sampler)
         log.twin("domain")
         log.collect_ctx()
 
@@ -88,6 +88,7 @@ def _ome_exact(log, n, m):
     qk = sym_module("eko.evolution_operator.quad_ker")
     log.encode(qk.build_ome)
     rp = (MOD, "replay_ome", {"n": n, "m": m, "exact": True})
+    D = Decider(log)
 
     def run():
         A = _sym_matrices(m, n)
@@ -104,13 +105,13 @@ def _ome_exact(log, n, m):
         for i in range(n):
             for j in range(n):
                 v = prove_zero(SR(0) + fwd[i, j] - F[i, j], "forward[%d,%d] == 1 + sum a_s^k A_k (order %d, %dx%d)" % (i, j, m, n, n))
-                log.decide(v, key="build_ome:forward", replay=rp, sampler=_sampler)
+                D(v, key="build_ome:forward", replay=rp, sampler=_sampler)
         for tag, prod in (("exact @ forward", inv @ F), ("forward @ exact", F @ inv)):
             for i in range(n):
                 for j in range(n):
                     d = SR(0) + prod[i, j] - (1 if i == j else 0)
                     v = prove_zero(d, "%s [%d,%d] == identity (order %d, %dx%d)" % (tag, i, j, m, n, n), timeout_ms=60000)
-                    log.decide(v, key="build_ome:exact", replay=rp, sampler=_sampler)
+                    D(v, key="build_ome:exact", replay=rp, sampler=_sampler)
         log.twin("domain")
         log.collect_ctx()
 
@@ -181,6 +182,7 @@ def case_coupling_inverse(log, scheme, generalised):
     log.encode(cpl.invert_matching_coeffs, cpl.compute_matching_coeffs_up, cpl.compute_matching_coeffs_down)
     jetmod.set_cap(6)
     rp = (MOD, "replay_coupling", {"scheme": scheme, "generalised": generalised})
+    D = Decider(log)
 
     def run():
         nf = SR.var("nf")
@@ -193,7 +195,9 @@ def case_coupling_inverse(log, scheme, generalised):
         up = _exact(real_up(scheme, nf))
         if generalised:
             up, _names = _generalise(up)
-        cpl.compute_matching_coeffs_up = lambda s, n: up
+            cpl.compute_matching_coeffs_up = lambda s, n: up
+        else:
+            cpl.compute_matching_coeffs_up = lambda s, n: _exact(real_up(s, n))  # same table, floats lifted exactly, arguments passed through
         try:
             down = cpl.compute_matching_coeffs_down(scheme, nf)
         finally:
@@ -204,7 +208,7 @@ def case_coupling_inverse(log, scheme, generalised):
                 d = _as_jet(comp) - a
                 for k in range(0, order + 1):
                     v = prove_zero(d._known(k), "%s - a: a^%d coefficient == 0 (order %d, %s, %s table)" % (tag, k, order, scheme, "generalised" if generalised else "real"))
-                    log.decide(v, key="invert_matching_coeffs:coupling", replay=rp, sampler=_sampler)
+                    D(v, key="invert_matching_coeffs:coupling", replay=rp, sampler=_sampler)
         log.twin("domain")
         log.collect_ctx()
 
@@ -218,6 +222,7 @@ def case_mass_inverse(log, generalised):
     log.encode(mm.compute_matching_coeffs_up, mm.compute_matching_coeffs_down, cpl.invert_matching_coeffs)
     jetmod.set_cap(6)
     rp = (MOD, "replay_mass", {"generalised": generalised})
+    D = Decider(log)
 
     def run():
         nf = SR.var("nf")
@@ -230,7 +235,9 @@ def case_mass_inverse(log, generalised):
         up = _exact(real_up(nf))
         if generalised:
             up, _names = _generalise(up)
-        mm.compute_matching_coeffs_up = lambda n: up
+            mm.compute_matching_coeffs_up = lambda n: up
+        else:
+            mm.compute_matching_coeffs_up = lambda n: _exact(real_up(n))  # same table, floats lifted exactly, argument passed through
         try:
             down = mm.compute_matching_coeffs_down(nf)
         finally:
@@ -240,7 +247,7 @@ def case_mass_inverse(log, generalised):
             prod = _as_jet(_factor(a, up, L, order) * _factor(a, down, L, order)) - 1
             for k in range(0, order):
                 v = prove_zero(prod._known(k), "mass: down x up - 1: a^%d coefficient == 0 (order %d, %s table)" % (k, order, "generalised" if generalised else "real"))
-                log.decide(v, key="invert_matching_coeffs:mass", replay=rp, sampler=_sampler)
+                D(v, key="invert_matching_coeffs:mass", replay=rp, sampler=_sampler)
         log.twin("domain")
         log.collect_ctx()
 
@@ -409,7 +416,7 @@ def main():
     chk.out_of_claim = ["floating-point conditioning of numpy.linalg.inv (LAPACK) -- replaced by the exact adjugate",
                         "matrix sizes other than 2 and 3; complex entries are covered because the identities are polynomial (real symbols suffice)",
                         "how the factors are applied inside Couplings.a and msbar_masses.evolve (C16, C18)"]
-    import eko.evolution_operator.quad_ker, eko.msbar_masses  # noqa: imported once here, inherited by the forked case workers
+    preimport("eko.evolution_operator.quad_ker", "eko.msbar_masses")
 
     chk.stubs = ["numpy.linalg.inv -> exact adjugate/determinant inverse (symx shim)"]
     chk.assumptions = ["matrix entries real symbols: polynomial identities over R extend to C",
